@@ -314,6 +314,9 @@ enum Event {
     Leave { target: usize, group: usize },
     StopTarget { target: usize, kill: bool },
     Cut,
+    /// one of A's proxies is stopped by hand through its cell: the hosting session cannot go on (it ends abnormally) and the link
+    /// goes down with it; everything said about a lost connection applies, and a redial must give one working link again
+    StopProxy,
 }
 
 #[derive(Clone, Debug)]
@@ -480,7 +483,7 @@ async fn body(seed: u64) -> Out {
             events.push((at, e));
         }
         if with_cut && !cut_by_bytes {
-            events.push((p.below(400), Event::Cut));
+            events.push((p.below(400), if p.chance(1, 3) { Event::StopProxy } else { Event::Cut }));
         }
     } else if p.chance(1, 2) {
         // benign membership churn only
@@ -685,6 +688,16 @@ async fn body(seed: u64) -> Out {
                 }
             }
             Event::Cut => {
+                link.cut_now();
+                cut_done = true;
+            }
+            Event::StopProxy => {
+                if let Some(px) = proxies_of(&ses_a).into_iter().find(|c| c.get_status() == ActorStatus::Running) {
+                    px.stop(Some("stopped by hand".into()));
+                    *counters.entry("proxies_stopped_by_hand").or_default() += 1;
+                    // give the session the chance to notice on its own, then make sure the link is down either way
+                    tokio::time::sleep(Duration::from_millis(p.below(20))).await;
+                }
                 link.cut_now();
                 cut_done = true;
             }
